@@ -33,6 +33,10 @@ def run(ctx):
         cases.append({"kind": "ephsub", "seed": ctx.seed * 120 + i, "fails": []})
     for i in range(2 if ctx.quick else 12):
         cases.append({"kind": "emptybusy", "seed": ctx.seed * 100 + i, "fails": []})
+    for i in range(2 if ctx.quick else 8):
+        cases.append({"kind": "emptydeferred", "seed": ctx.seed * 100 + i, "fails": []})
+    for i in range(2 if ctx.quick else 8):
+        cases.append({"kind": "mpubdelete", "seed": ctx.seed * 100 + i, "fails": []})
     cf = os.path.join(ctx.scratch, "c08-cases.json")
     json.dump(cases, open(cf, "w"))
     of = os.path.join(ctx.scratch, "c08-obs.json")
